@@ -89,11 +89,12 @@ PROPS = {
     'C05': {
         'proofs': ['Ww.Proofs.C05'],
         'gen_sections': [],
-        'drivers': [{'name': 'sched'}, {'name': 'hist'}],
+        'drivers': [{'name': 'sched'}, {'name': 'hist'}, {'name': 'cook'}],
         'reasons': ['C05.'],
-        'class_fields': _merge(HIST_CLASS, {'sched': ['store', 'procs', 'crash', 'trace', 'statuses', 'exists']}),
-        'nontrivial': _merge(HIST_NT, {'sched': lambda f: ',' in f.get('schedule', '')}),
-        'rule': SCHED_RULE + " hist driver: every logout variant is followed by a request with the old cookie.",
+        'class_fields': _merge(HIST_CLASS, {'sched': ['store', 'procs', 'crash', 'trace', 'statuses', 'exists'], 'jar': ['after', 'status', 'names', 'sso'], 'setcookie': ['op', 'class', 'clear', 'path', 'domain']}),
+        'nontrivial': _merge(HIST_NT, {'sched': lambda f: ',' in f.get('schedule', ''), 'jar': lambda f: f.get('after') != 'callback', 'setcookie': lambda f: False, 'cookieval14': lambda f: False,
+                                       'retrychain': lambda f: False, 'retryreset': lambda f: False, 'ratelimit': lambda f: False}),
+        'rule': SCHED_RULE + " hist driver: every logout variant is followed by a request with the old cookie. cook driver: the jar of an RFC 6265 browser after each logout variant in 8 configurations (ingress with path prefix, SSO domain spellings) - the session cookie must be gone.",
         'level_text': "Proof: in the small-step model (one transition = one store command / lock script / provider call of one process; any number of refreshing, reading and logging-out processes; any schedule; crashes) a deleted "
                       "session entry is never re-created (the refresh write-back is update-only-if-present in ONE step), so for every schedule pre ++ [delete of a logout] ++ post the entry is absent at the end and at every later moment; "
                       "a request that had not reached the provider by then never does. The model is tied to the real handlers step by step by executing explicit schedules on real replicas over one miniredis (pre-hook = scheduling point).",
